@@ -139,7 +139,7 @@ def kernel_contract(interp, func, calls):
                     raise SymRaise('TypeError', ('%s(): %s.%s must be a real number, not %s' % (fname, objname, '.'.join(chain), 'NoneType' if cur is None else type(cur).__name__),))
                 cur = pysym._unwrap0(cur)
             values[('.'.join(chain)) if len(objparams_) == 1 else (objname + '.' + '.'.join(chain))] = cur
-        res = Opaque('kernel', fn=fname, model=modname, args={k: v for k, v in scal.items() if not hasattr(v, 'nfills')}, panel=values)
+        res = Opaque('kernel', fn=fname, model=modname, args={k: v for k, v in scal.items() if not hasattr(v, 'nfills')}, panel=values, objs=tuple(objparams_))
         for k, v in scal.items():
             if hasattr(v, 'nfills'):        # work matrix filled by this kernel (fg)
                 v.fill = res
